@@ -1,0 +1,19 @@
+//go:build verif
+
+package tk
+
+import (
+	"src.elv.sh/pkg/cli/term"
+	"src.elv.sh/pkg/ui"
+)
+
+// VerifC34RenderView exposes renderView followed by truncateToHeight (the body
+// of codeArea.Render at the level of its view model) to the /verif harness.
+// Add-only hook; compiled only with -tags verif.
+func VerifC34RenderView(prompt, rprompt, code ui.Text, dot int, tips []ui.Text, width, height int) *term.Buffer {
+	bb := term.NewBufferBuilder(width)
+	renderView(&view{prompt: prompt, rprompt: rprompt, code: code, dot: dot, tips: tips}, bb)
+	b := bb.Buffer()
+	truncateToHeight(b, height)
+	return b
+}
